@@ -1,6 +1,6 @@
 """C04 - tampering in flight cannot yield two endpoints that disagree."""
 from vt import boot  # noqa
-from vt import pair, flavours, scn, wire, mon
+from vt import pair, flavours, scn, wire, mon, drive
 from vt.pair import outcome, Flavor, settings
 
 from tlslite import errors as E
@@ -377,6 +377,11 @@ def make_cases(ctx):
             for scsv in (True, False):
                 yield "scsv-%d-%d-%d" % (cmax[1], smax[1], scsv), dict(
                     scsv=(cmax, smax, scsv))
+                # the falling-back client also offers a cached session
+                for how in ("id", "ticket"):
+                    yield "scsv-%d-%d-%d-%s" % (cmax[1], smax[1], scsv,
+                                                how), dict(
+                        scsv=(cmax, smax, scsv), sess=how)
     names = QUICK_SC if ctx.quick else [s.name for s in flavours.ALL]
     for name in names:
         sc = flavours.BY_NAME[name]
@@ -405,9 +410,36 @@ def run_scsv(ctx, cid, P):
     cs = settings(minVersion=(3, 0), maxVersion=tuple(cmax),
                   sendFallbackSCSV=scsv)
     ss = settings(minVersion=(3, 0), maxVersion=tuple(smax))
+    sess = None
+    cache = None
+    if P.get("sess"):
+        from tlslite.sessioncache import SessionCache
+        from vt.flavours import TK, pump
+        if P["sess"] == "id":
+            cache = SessionCache()
+        else:
+            ss.ticketKeys = TK
+        cs0 = settings(minVersion=(3, 0), maxVersion=tuple(cmax))
+        p0 = pair.Pair()
+        t0c, t0s = p0.handshake(Flavor("cert", skey="rsa", cset=cs0, sset=ss,
+                                       session_cache=cache))
+        if t0c.status != "done" or t0s.status != "done":
+            if tuple(smax) >= tuple(cmax) or True:
+                ctx.count("scsv_session_source_failed")
+            return
+        pump(p0, p0.c, p0.csock)
+        drive.run([drive.Task("cc", drive.aclose(p0.c), p0.csock),
+                   drive.Task("sc", drive.aclose(p0.s), p0.ssock)], p0.link)
+        sess = p0.c.session
+        if sess is None or not sess.valid():
+            ctx.count("scsv_session_source_failed")
+            return
     p = pair.Pair()
-    tc, ts = p.handshake(Flavor("cert", skey="rsa", cset=cs, sset=ss))
+    tc, ts = p.handshake(Flavor("cert", skey="rsa", cset=cs, sset=ss,
+                                session=sess, session_cache=cache))
     ctx.ev()
+    if sess is not None:
+        ctx.count("scsv_with_session")
     higher = tuple(smax) > tuple(cmax)
     W = {"case": cid, "outcome": [outcome(tc), outcome(ts)]}
     both = tc.status == "done" and ts.status == "done"
